@@ -61,11 +61,17 @@ def loop_info(fn):
     info = {}
     for h, body in loops.items():
         # the `next` call that drives the loop is in the header block
-        t = fn.term(h)
-        drv = None
-        if t["k"] == "call" and re.search(r"Iterator>::next$", M.call_name(t)):
-            drv = t.get("callee_self") or ""
-        info[h] = {"body": body, "driver": drv, "inner": [h2 for h2 in loops if h2 != h and h2 in body]}
+        # (a `for` loop has it in the header block; `while cond { match it.next() { .. } }` somewhere in the loop's own body:
+        # any block of the loop that belongs to no inner loop)
+        inner_ = [h2 for h2 in loops if h2 != h and h2 in body]
+        own = [b for b in body if not any(b in loops[h2] for h2 in inner_)]
+        drv, drv_bb = None, None
+        for b in sorted(own, key=lambda b_: (b_ != h, b_)):
+            t = fn.term(b)
+            if t["k"] == "call" and re.search(r"Iterator>::next$", M.call_name(t)):
+                drv, drv_bb = t.get("callee_self") or "", b
+                break
+        info[h] = {"body": body, "driver": drv, "driver_bb": drv_bb, "inner": inner_}
     return info
 
 
@@ -165,14 +171,56 @@ def analyze(ctx, want):
             return t[1]
         return None
 
+    def payload_path(term):
+        # term == ((X as Some).0).k  with X = ("sym", name): component k of a tuple-valued incumbent
+        t = term
+        while t[0] in ("cast",):
+            t = t[2]
+        if t[0] == "field" and t[1][0] == "field" and t[1][2] == "0" and t[1][1][0] == "downcast" and t[1][1][2] == "Some" and t[1][1][1][0] == "sym" and str(t[2]).isdigit():
+            return t[1][1][1][1], int(t[2])
+        return None
+
     roles["tid"] = payload_local(tt)
     roles["start"] = payload_local(st)
     roles["end"] = payload_local(en)
+    # One incumbent that carries (end, extent, token type) as a tuple is the same state as separate locals that are written
+    # together: it is analysed as its components ("virtual split").  VT: base name -> {component index: virtual name}
+    VT = {}
+    pt_, pe_ = payload_path(tt), payload_path(en)
+    if roles["tid"] is None and roles["end"] is None and pt_ and pe_ and pt_[0] == pe_[0] and pt_[1] != pe_[1]:
+        VT = {"base": pt_[0], "tid": pt_[1], "end": pe_[1]}
+        roles["tid"] = "%s.%d" % pt_
+        roles["end"] = "%s.%d" % pe_
     ob("C05.a", "result-roles-resolved", all(roles.values()),
        "returned Match{token_type: %s, span: %s..%s}; incumbents %s" % (S.vstr(tt), S.vstr(st), S.vstr(en), roles), fd.loc())
     sample("C05.a", {"returned_match": "Match{token_type: %s, span: %s..%s}" % (S.vstr(tt), S.vstr(st), S.vstr(en)), "roles": roles})
     if not all(roles.values()):
         return
+    VLOC = {}          # virtual local number -> (base local number, component index)
+
+    def NAMES():
+        d = dict(fd.names())
+        for vl, (bl, k) in VLOC.items():
+            d[vl] = "%s.%d" % (fd.names()[bl], k)
+        return d
+
+    def DEFS():
+        d = dict(fd.defs())
+        for vl, (bl, k) in VLOC.items():
+            d[vl] = fd.defs().get(bl, [])
+        return d
+
+    def LOCAL_VAL(p, fid, l):
+        if l in VLOC:
+            bl, k = VLOC[l]
+            v = p.locals.get((fid, bl))
+            if v is None or v == none():
+                return v
+            if v[0] == "adt" and v[2] == "Some" and v[3] and v[3][0][0] == "tuple":
+                c_ = v[3][0][1][k]
+                return c_ if k not in (VT.get("tid"), VT.get("end")) else some(c_)
+            return ("field", ("field", ("downcast", v, "Some"), "0"), str(k))
+        return p.locals.get((fid, l))
     name2local = {}
     cnt_ = {}
     for l, n in fd.names().items():
@@ -192,6 +240,66 @@ def analyze(ctx, want):
         ctx.missing("C05.anchor", "path enumeration of the transition loop truncated")
         return
     fidl = ex.fid
+    if VT:
+        base_l = name2local.get(VT["base"])
+        OPT_ = "std::option::Option"
+        arity = None
+        for p in paths:
+            for e in p.events:
+                if e[0] == "write" and e[2] == ("local", fidl, base_l) and not e[3] and e[4][0] == "adt" and e[4][2] == "Some" and e[4][3] and e[4][3][0][0] == "tuple":
+                    arity = len(e[4][3][0][1])
+        if base_l is None or arity is None:
+            ctx.missing("C05.anchor", "tuple-valued incumbent %s: no write of Some((..)) found in the transition loop" % VT["base"])
+            return
+        for k in range(arity):
+            VLOC[100000 + k] = (base_l, k)
+            name2local["%s.%d" % (VT["base"], k)] = 100000 + k
+        BSYM = ("sym", VT["base"])
+
+        def vsym(k):
+            return ("sym", "%s.%d" % (VT["base"], k))
+
+        def rw(t):
+            # bottom-up rewriting of a term: components of the tuple become the virtual incumbents
+            if not isinstance(t, tuple):
+                return t
+            t = tuple(rw(x) for x in t)
+            if len(t) == 3 and t[0] == "field" and isinstance(t[1], tuple) and t[1][:1] == ("field",) and len(t[1]) == 3 and t[1][2] == "0" and t[1][1] == ("downcast", BSYM, "Some") and str(t[2]).isdigit():
+                k = int(t[2])
+                return vsym(k) if k not in (VT["tid"], VT["end"]) else ("field", ("downcast", vsym(k), "Some"), "0")
+            if len(t) == 3 and t[0] == "isvar" and t[1] == BSYM:
+                return ("isvar", vsym(VT["tid"]), t[2])
+            if len(t) >= 2 and t[0] == "discr" and t[1] == BSYM:
+                return ("discr", vsym(VT["tid"])) + t[2:]
+            return t
+        for p in paths:
+            p.conds = [(rw(c), o) for c, o in p.conds]
+            for key, val in list(p.assume.items()):
+                if isinstance(key, tuple) and len(key) == 2 and key[0] == "variant" and key[1] == BSYM:
+                    p.assume[("variant", vsym(VT["tid"]))] = val
+                    p.assume[("variant", vsym(VT["end"]))] = val
+            new_events = []
+            for e in p.events:
+                if e[0] == "write" and e[2] == ("local", fidl, base_l) and not e[3]:
+                    v = e[4]
+                    for k in range(arity):
+                        if v[0] == "adt" and v[2] == "Some" and v[3] and v[3][0][0] == "tuple":
+                            c_ = rw(v[3][0][1][k])
+                            vv = c_ if k not in (VT["tid"], VT["end"]) else ("adt", OPT_, "Some", (c_,))
+                        elif v == none():
+                            vv = none() if k in (VT["tid"], VT["end"]) else ("int", 0)
+                        else:
+                            vv = ("field", ("field", ("downcast", rw(v), "Some"), "0"), str(k))
+                        new_events.append(("write", e[1], ("local", fidl, 100000 + k), (), vv) + tuple(e[5:]))
+                    continue
+                if e[0] == "write":
+                    e = e[:4] + (rw(e[4]),) + tuple(e[5:])
+                elif e[0] == "unwrap":
+                    e = e[:2] + (rw(e[2]),) + tuple(e[3:])
+                elif e[0] == "call":
+                    e = e[:3] + (tuple(rw(a) for a in e[3]), rw(e[4]) if e[4] is not None else None) + tuple(e[5:])
+                new_events.append(e)
+            p.events = new_events
     # incumbent-state locals: named locals defined outside the transition loop and written inside it
     body = li[H_tr]["body"]
     written = {}
@@ -199,20 +307,20 @@ def analyze(ctx, want):
         for e in p.events:
             if e[0] == "write" and e[2][0] == "local" and e[2][1] == fidl and not e[3]:
                 l = e[2][2]
-                if l in fd.names():
+                if l in NAMES():
                     written.setdefault(l, 0)
-    defs = fd.defs()
+    defs = DEFS()
     incumb = []
     for l in sorted(written):
         outside = [d for d in defs.get(l, []) if d["bb"] not in body and d["bb"] >= 0]
         if outside:
             incumb.append(l)
-    inc_names = [fd.names()[l] for l in incumb]
+    inc_names = [NAMES()[l] for l in incumb]
     res_locals = {role: name2local.get(n) for role, n in roles.items()}
     ext_locals = [l for l in incumb if l not in res_locals.values()]
     ob("C05.a", "incumbent-locals", res_locals["tid"] in incumb and res_locals["end"] in incumb,
        "locals carried across iterations and written in the transition loop: %s" % inc_names, fd.loc())
-    sample("C05.a", {"incumbent_locals": inc_names, "extent_locals": [fd.names()[l] for l in ext_locals]})
+    sample("C05.a", {"incumbent_locals": inc_names, "extent_locals": [NAMES()[l] for l in ext_locals]})
 
     SYM = lambda n: ("sym", n)
     INDEX, CH = None, None
@@ -229,6 +337,35 @@ def analyze(ctx, want):
                         INDEX = fd.names().get(s["p"]["l"])
                     elif pj[2]["i"] == 1:
                         CH = fd.names().get(s["p"]["l"])
+    if not INDEX or not CH:
+        # the item reaches its named parts through intermediate bindings (`let (index, c) = match it.next() { Some(x) => x, .. }`):
+        # resolved by provenance — a named local of the char loop whose value is component 0 / 1 of the Some payload of the
+        # cursor's `next`
+        pv_ = M.Prov(fd)
+
+        def item_component(e, depth=0):
+            # -> 0 / 1 if e is (<next() on CharIndices> as Some).0.<k>, looking through phi nodes that all agree
+            if depth > 6 or not isinstance(e, tuple):
+                return None
+            if e[0] == "phi":
+                ks = {item_component(a, depth + 1) for a in e[1] if not (isinstance(a, tuple) and a[0] in ("mutated",))}
+                return ks.pop() if len(ks) == 1 else None
+            if e[0] == "field" and e[1][0] == "field" and e[1][1][0] == "downcast" and e[1][1][2] == "Some":
+                c_ = e[1][1][1]
+                while isinstance(c_, tuple) and c_[0] == "phi" and len(c_[1]) == 1:
+                    c_ = c_[1][0]
+                if c_[0] == "call" and re.search(r"Iterator>::next$", c_[1]) and "CharIndices" in c_[1]:
+                    return e[3] if len(e) > 3 else int(e[2])
+            return None
+        for l, n_ in sorted(fd.names().items()):
+            ds = [d for d in fd.defs().get(l, []) if not d["partial"]]
+            if not ds or not all(d["bb"] in li[H_char]["body"] for d in ds):
+                continue
+            k_ = item_component(pv_.local(l))
+            if k_ == 0 and not INDEX:
+                INDEX = n_
+            elif k_ == 1 and not CH:
+                CH = n_
     if not INDEX or not CH:
         ctx.missing("C05.anchor", "cursor item (index, char) of the char loop")
         return
@@ -354,7 +491,7 @@ def analyze(ctx, want):
         if not gate_open:
             ob("C04.a", "gate-dominates-result-writes", not wmap,
                "candidate with unsatisfied lookahead (present=%s split=%s satisfied=%s positive=%s) writes %s" % (
-                   la_present, split_v, satisfied, ispos, [fd.names()[l] for l in wmap]), fd.loc())
+                   la_present, split_v, satisfied, ispos, [NAMES()[l] for l in wmap]), fd.loc())
             continue
         n_sel += 1
         la = ("int", 0)
@@ -431,7 +568,7 @@ def analyze(ctx, want):
         wrote_none = not wmap
         ok_pair = wrote_all or wrote_none
         ob("C05.a", "end-type-extent-written-together", ok_pair,
-           "a candidate writes %s of the incumbent locals %s (must be all or none: span and token type belong to one candidate)" % ([fd.names()[l] for l in wmap], inc_names), fd.loc())
+           "a candidate writes %s of the incumbent locals %s (must be all or none: span and token type belong to one candidate)" % ([NAMES()[l] for l in wmap], inc_names), fd.loc())
         if not ok_pair:
             continue
         for Tv in Ts:
@@ -475,7 +612,7 @@ def analyze(ctx, want):
                 vx = wmap[l]
                 ok_x = S.linear(vx) == S.linear(EXT)
                 ob("C05.b", "stored-extent-is-end-plus-own-lookahead", ok_x,
-                   "%s := %s (must be the candidate's end plus the length of ITS lookahead match: %s)" % (fd.names()[l], S.vstr(vx), S.vstr(EXT)), fd.loc())
+                   "%s := %s (must be the candidate's end plus the length of ITS lookahead match: %s)" % (NAMES()[l], S.vstr(vx), S.vstr(EXT)), fd.loc())
         # unwraps inside the selection
         for e in p.events:
             if e[0] == "unwrap":
@@ -513,7 +650,7 @@ def analyze(ctx, want):
     okstart = False
     det = ""
     # successor of the header's switch on Some
-    hb = fd.term(H_char)
+    hb = fd.term(li[H_char]["driver_bb"])
     sw_bb = hb["target"]
     swt = fd.term(sw_bb)
     some_bb = None
@@ -568,9 +705,9 @@ def analyze(ctx, want):
         ob("C12.d", "simulation-seeded-with-start-state-0", bool(ok_seed), "pushes on entry: %s" % [S.vstr(e[3][1]) for e in seeded], fd.loc())
         inc_init = {}
         for nm in inc_names + [roles["start"]]:
-            v = p.locals.get((ex.fid, name2local[nm]))
+            v = LOCAL_VAL(p, ex.fid, name2local[nm])
             inc_init[nm] = S.vstr(v) if v else None
-        ok_init = all(p.locals.get((ex.fid, name2local[r])) == none() for r in (roles["tid"], roles["end"], roles["start"]))
+        ok_init = all(LOCAL_VAL(p, ex.fid, name2local[r]) == none() for r in (roles["tid"], roles["end"], roles["start"]))
         ob("C05.d", "incumbents-start-absent", ok_init, "initial incumbents: %s" % inc_init, fd.loc())
     # after the state loop: current := next, next emptied; stop when nothing is active
     # (region: exit of the middle loop -> back edge of the char loop / exit)
